@@ -118,3 +118,30 @@ claim("C10", "every checker class is proved against the pointwise statement of t
                   "documented identities run on live typing objects and are decided by an exhaustive enumeration of predicate "
                   "expressions x location stacks up to a printed bound against reference semantics written from the tutorial "
                   "(labelled bounded, never counted as proved).")
+
+CONV_NOTE = (" GENPROG-converters: the text executed is the source adaptix' own compiler registered in `linecache` for the produced converter "
+             "and for every generated coercer reachable from it (read back from the function objects, nothing is re-generated); user "
+             "coercers and link functions are uninterpreted total functions; destination models are dataclasses whose generated __init__ "
+             "binds arguments by python's rules (inspect.signature.bind). The expected expression tree comes from genprog/link_spec.py, "
+             "written from docs/conversion and the property text without reading linking_provider.py / model_coercer_provider.py.")
+
+claim("C13", "every generated converter of a printed family (renames, link order, constants, link functions, extra parameters, from_param, "
+             "nested models, user coercers and their precedence, unlinked optional policy, keyword-only constructor parameters, call "
+             "history on one retort) is proved — for a symbolic source object and symbolic extra arguments — to construct exactly the "
+             "destination the documented linking rules fix, to be refused exactly when the rules leave a field without source or "
+             "coercer, to leave the source unmodified and to keep the stub's signature and name",
+      note=NOTE + CONV_NOTE + " C13-specific: bounded over programs (family printed in genprog/conv.py), unbounded over inputs; Optional / "
+                              "iterable / dict coercers are covered per function under C14/C20, not inside this family; model kinds other "
+                              "than dataclass and generic models are outside the family. A link predicate that accepts BOTH a parameter and "
+                              "a field is left out: the property fixes that precedence only for same-named default linking.",
+      ref="DESIGN.md §5, Appendix D")
+
+claim("C19", "hostile program families: every loader, dumper and converter generated for field ids equal to identifiers of the generated "
+             "code / builtins / keywords-with-underscore / non-ASCII, hostile mapped keys (quotes, backslashes, braces, `$`, newlines, code "
+             "fragments), hostile model, parameter, function and converter names and hostile constants is (a) created, (b) proved against "
+             "the same C03/C08/C13 contract as harmless programs, (c) proved structurally identical (AST with data abstracted) to the "
+             "program generated for its harmless twin; BuiltinNameSanitizer.sanitize proved to return a non-keyword identifier",
+      note=NOTE + GENPROG_NOTE + CONV_NOTE + " C19-specific: bounded over the hostile dictionaries printed in genprog/family.py and "
+                                             "genprog/conv.py; the sanitizer is proved over the string cells of D and a printed list of hostile "
+                                             "names (its per-character behaviour over all of Unicode is not enumerated).",
+      ref="DESIGN.md §5, Appendix D")
